@@ -202,7 +202,7 @@ def replay_fail(cex, d):
     lens = [int(fx[f'l{i + 1}']) for i in range(K)]
     ks = [int(fx[f'k{i + 1}']) for i in range(F)]
     if max(lens + ks + [0]) > 3000:
-        return {'reproduced': False, 'detail': 'sizes too large to materialise'}
+        return {'reproduced': False, 'skip': True, 'detail': 'sizes too large to materialise'}
     atom = tuple(fx.get('atom', ()))
     numtype, indextype, kind = fx['numtype'], fx['indextype'], fx['kind']
     rbv = ITEMSIZE[numtype]
